@@ -1,6 +1,28 @@
 (** * The codec environment depends on the descriptors only through [norm] (property C20):
       two families that carry the same normalised descriptors drive the SAME encoder and decoder. *)
 From Irismod Require Import Proto.Desc Proto.Wire Proto.WireEnv.
+Open Scope N_scope.
+
+(** decidable equality of codec environments (for the finite comparison of the imported messages) *)
+Fixpoint value_eq_dec (a b : value) {struct a} : {a = b} + {a <> b}.
+Proof.
+  decide equality; try apply N.eq_dec; try (apply list_eq_dec; apply N.eq_dec).
+  apply list_eq_dec. intros [n1 v1] [n2 v2].
+  destruct (N.eq_dec n1 n2) as [En|En]; [|right; congruence].
+  destruct (value_eq_dec v1 v2) as [Ev|Ev]; [left; congruence|right; congruence].
+Defined.
+
+#[export] Instance EqDec_value : EqDec value := value_eq_dec.
+#[export] Instance EqDec_skind : EqDec skind.
+Proof. intros x y. unfold EqDec in *. decide equality. Defined.
+#[export] Instance EqDec_wkind : EqDec wkind.
+Proof. intros x y. unfold EqDec in *. decide equality; apply eq_dec. Defined.
+#[export] Instance EqDec_nnkind : EqDec nnkind.
+Proof. intros x y. unfold EqDec in *. decide equality; apply eq_dec. Defined.
+#[export] Instance EqDec_wfield : EqDec wfield.
+Proof. intros x y. unfold EqDec in *. decide equality; apply eq_dec. Defined.
+#[export] Instance EqDec_wmsg : EqDec wmsg.
+Proof. intros x y. unfold EqDec in *. decide equality; apply eq_dec. Defined.
 
 Lemma all_msgs_norm : forall fs, all_msgs (norm fs) = all_msgs fs.
 Proof.
